@@ -28,7 +28,7 @@ def add_demo():
 
 def run():
     feat = ['--features', os.environ['SEED_FEATURES']] if os.environ.get('SEED_FEATURES') else []
-    p = sh('cargo', 'test', '--offline', '-p', 'elvis-core', '--lib', *feat, filt, cwd=os.path.join(wt, 'sim'), env=env)
+    p = sh('cargo', 'test', '--offline', '-p', os.environ.get('SEED_PKG', 'elvis-core'), '--lib', *feat, filt, cwd=os.path.join(wt, 'sim'), env=env)
     out = p.stdout + p.stderr
     import re
     m = re.search(r'test result: (\w+)\. (\d+) passed; (\d+) failed', out)
